@@ -780,7 +780,7 @@ func Check() *core.Check {
 			fams := []*core.Family{family(1), family(2), family(3)}
 			f4 := family(4)
 			if tier == "thorough" {
-				return append(fams, f4, shapeFamily(24, 80, 8), hugeFamily(tier), degenerateUIDFamily())
+				return append(fams, f4, shapeFamily(40, 160, 10), hugeFamily(tier), degenerateUIDFamily())
 			}
 			return append(fams, f4, shapeFamily(12, 40, 6), hugeFamily(tier), degenerateUIDFamily())
 		},
